@@ -103,8 +103,10 @@ def ensure_facts(force=False):
         if not os.path.exists(os.path.join(d, "DONE")):
             if os.path.isdir(d):
                 shutil.rmtree(d)
-            # drop old entries (disk)
-            for old in glob.glob(os.path.join(CACHE, "facts-*")):
+            # drop old entries (disk), keeping the two most recent trees (a seeded patch applied and undone
+            # gives the same key as before)
+            olds = sorted(glob.glob(os.path.join(CACHE, "facts-*")), key=os.path.getmtime, reverse=True)
+            for old in olds[2:]:
                 shutil.rmtree(old, ignore_errors=True)
             tmp = d + ".tmp"
             shutil.rmtree(tmp, ignore_errors=True)
